@@ -30,3 +30,5 @@ EQUIVALENT = [
     ('maximum argument order', C, "    correlograms[..., 0] = np.maximum(correlograms[..., 0],\n                                      correlograms[..., 0].T)", "    correlograms[..., 0] = np.maximum(correlograms[..., 0].T,\n                                      correlograms[..., 0])"),
     ('transpose then reverse', C, "    sym = correlograms[..., 1:][..., ::-1]\n    sym = np.transpose(sym, (1, 0, 2))", "    sym = np.transpose(correlograms, (1, 0, 2))[..., 1:][..., ::-1]"),
 ]
+BREAKING.append(('delay from float times, truncated afterwards', 'phylib/stats/ccg.py', "        spike_diff = _diff_shifted(spike_samples, shift)", "        spike_diff = (_diff_shifted(spike_times, shift) * sample_rate).astype(np.int64)", ['C15.U1']))
+EQUIVALENT.append(('samples via floor then cast', 'phylib/stats/ccg.py', "    spike_samples = (spike_times * sample_rate).astype(np.int64)", "    spike_samples = np.floor(spike_times * sample_rate).astype(np.int64)"))
